@@ -30,11 +30,23 @@ WHY = {
     'C19-3': 'nested generator lifted to a module-level generator function',
     'C20-1': 'nested closure lifted to a module-level function with the captured variables as new parameters',
     'C20-3': 'a verbatim copy of a block is replaced by a call of the (known) function it duplicates',
+    'C01-r2-1': 'the lock acquire / try / finally / release pair of write_pixels becomes a context-manager class (`with _holding(lock):`)',
+    'C13-r2-2': 'the same lock pair becomes a generator-based `@contextmanager` helper',
+    'C02-r2-1': 'same de-duplication of prepare_pixels as C02-3: a loop over a list built at run time (conditional append, concatenated comprehension)',
+    'C08-r2-2': 'the per-axis re-binning is folded into a local closure applied in `for axis in (1, 2)` with computed column names',
+    'C09-r2-1': 'same rewrite as C09-1: the `while` countdown becomes `for`/`range` loops with `continue` (a different loop structure)',
+    'C12-r2-3': 'two copy-pasted one-based loops merged into one loop over a column list built from the flags',
+    'C16-r2-1': 'parse_field_param restructured with guard clauses: the loop over the property list now iterates a differently built (path-dependent) term, and refusals are regrouped',
+    'C18-r2-1': '`shape=(len(new_names),)` for `shape=(n_chroms,)` in an extracted helper (equal only because both count the chromosomes)',
+    'C18-r2-3': '`{name: i for i, name in enumerate(names)}` for `dict(zip(frame["name"], range(len(frame))))` (needs `len(frame) == len(frame[col])` and store-to-load forwarding)',
+    'C19-r2-3': 'three nested closures (one a generator) lifted to module-level functions - no longer applies after the F24 repair of the same function',
+    'C20-r2-2': 'nested closure `_each` lifted to a module-level function with the captured variables as parameters, `map` -> comprehension',
+    'C14-r2-3': '(silent when written; no longer applies after the F25 repair of the same function)',
 }
 rows = []
 idx = []
 for d in sorted(os.listdir('/verif/benign')):
-    if not re.match(r'C\d\d-\d$', d):
+    if not re.match(r'C\d\d-(r2-)?\d$', d):
         continue
     notes = ''
     p = f'/verif/benign/{d}/notes.txt'
@@ -42,20 +54,20 @@ for d in sorted(os.listdir('/verif/benign')):
         notes = ' '.join(open(p, errors='replace').read().split())[:230]
     files = sorted(set(re.findall(r'^\+\+\+ b/src/cooler/(\S+)', open(f'/verif/benign/{d}/patch.diff', errors='replace').read(), re.M)))
     st = status.get(d)
-    verdict = 'silent (all 20 checks)' if st == [] else ('not run' if st is None else 'reported by ' + ' '.join(st))
-    idx.append({'id': d, 'files': files, 'silent': st == [], 'reported_by': st or [], 'why_reported': WHY.get(d, '') if st else ''})
-    rows.append(f'| {d} | {", ".join(files)} | {notes.replace("|", "/")} | {verdict}{(" - " + WHY[d]) if st and d in WHY else ""} |')
+    verdict = 'silent (all 20 checks)' if st == [] else ('patch no longer applies to the repaired tree' if st is None else 'reported by ' + ' '.join(st))
+    idx.append({'id': d, 'files': files, 'silent': st == [], 'applies': st is not None, 'reported_by': st or [], 'why_reported': WHY.get(d, '') if st else ''})
+    rows.append(f'| {d} | {", ".join(files)} | {notes.replace("|", "/")} | {verdict}{(" - " + WHY[d]) if (st or st is None) and d in WHY else ""} |')
 json.dump(idx, open('/verif/benign/INDEX.json', 'w'), indent=1)
 n_s = sum(1 for x in idx if x['silent'])
 txt = ['## Appendix E. Behaviour-preserving maintenance changes (false-alarm probe)', '',
        'Produced by fresh sub-agents that were given only the text of one property and a scratch worktree and asked to act as a',
-       'careful maintainer: four realistic, behaviour-preserving changes each (renames, restructured conditionals, guard clauses,',
+       'careful maintainer: four (first probe, ids `Cxx-k`) or three (second probe with fresh authors, ids `Cxx-r2-k`) realistic, behaviour-preserving changes each (renames, restructured conditionals, guard clauses,',
        'idiom replacements, extracted or inlined helpers, temporaries, reordering, docstrings / logging, dead-code removal), each',
        'with the unedited suite at baseline and a differential digest (`equiv.py`: outputs, exception classes, file contents on',
        'many inputs) identical before and after. `tools/run_benign.sh` applies each to a scratch copy and runs **all 20** checks.',
        'A change that is reported is a false alarm of the machinery by the standard of the brief; they are listed with the reason,',
        'not hidden - the classes that remain are the limitation stated in section 6.', '',
-       f'{len(idx)} changes: {n_s} leave every check silent, {len(idx) - n_s} are reported.', '',
+       f'{len(idx)} changes: {n_s} leave every check silent, {sum(1 for x in idx if x["applies"] and not x["silent"])} are reported, {sum(1 for x in idx if not x["applies"])} no longer apply to the repaired tree.', '',
        '| id | file(s) | what the author did (from the notes) | result |', '|----|---------|----|----|'] + rows + ['']
 p = '/verif/DESIGN.md'
 s = open(p).read()
